@@ -293,6 +293,23 @@ class FileResponse(StreamResponse):
             _CLOSE_FUTURES.add(close_future)
             close_future.add_done_callback(_CLOSE_FUTURES.remove)
 
+    @staticmethod
+    def _if_range_matches(request: "BaseRequest", st: os.stat_result) -> bool:
+        """Evaluate the If-Range precondition.
+
+        https://www.rfc-editor.org/rfc/rfc9110#section-13.1.5
+        """
+        raw = request.headers.get(hdrs.IF_RANGE)
+        if raw is None:
+            return True
+        raw = raw.strip()
+        if raw.startswith(('"', "W/")):
+            # An entity-tag: only a strong tag that is identical to the
+            # current one matches; a weak tag never does.
+            return raw == f'"{st.st_mtime_ns:x}-{st.st_size:x}"'
+        ifrange = request.if_range
+        return ifrange is None or st.st_mtime <= ifrange.timestamp()
+
     async def _prepare_open_file(
         self,
         request: "BaseRequest",
@@ -306,7 +323,7 @@ class FileResponse(StreamResponse):
         count: int = file_size
         start: int | None = None
 
-        if (ifrange := request.if_range) is None or file_mtime <= ifrange.timestamp():
+        if self._if_range_matches(request, st):
             # If-Range header check:
             # condition = cached date >= last modification date
             # return 206 if True else 200.
